@@ -126,6 +126,16 @@ def h_clustered(I, fi):
         def m_keys(self, I_):
             return ("raw-keys",)
 
+        def m_items(self, I_):
+            # iteration order of the dictionary itself = the order in which the clusters were first met, NOT the sorted ids
+            return SymSeq("raw.items", c, lambda j: (("cluster-met-at-position", _k(I_.to_num(j))), Lst(("cluster-met-at-position", _k(I_.to_num(j))))))
+
+        def m_values(self, I_):
+            return SymSeq("raw.values", c, lambda j: Lst(("cluster-met-at-position", _k(I_.to_num(j)))))
+
+        def for_loop_keys(self, I_):
+            return SymSeq("raw.iter", c, lambda j: ("cluster-met-at-position", _k(I_.to_num(j))))
+
     raw = Raw()
     I.registry.globals_override["defaultdict"] = lambda I_, f=None: raw
     I.registry.globals_override["sorted"] = lambda I_, x, **k: SymSeq("sorted(%s)" % (x,), c, lambda j: ("cluster-id", _k(I_.to_num(j))))
